@@ -1,35 +1,30 @@
 import RModel.Model.Output
 /-
-  C19, part a: the decidable guards of the partial theorems, and the conformance group (cheap).
+  C19, part a: the one remaining guard, the conformance group and the facts about main.rs (cheap).
   The parts C19a … C19g exist only so that the kernel evaluations of the big tables run in parallel; every theorem is
   restated with its full statement in Props/C19.lean, which is the file to read.
 -/
 namespace C19
 open Output
 
-/-! ### guards (decidable, per row) -/
-
-/-- `replace` leaves through its early return before printing anything: `--output json --quiet` -/
-def replaceJsonQuiet (r : Row) : Bool := r.cmd == .replace && r.json && r.quiet
-
-/-- `replace` is asked to apply (`-y`, no `--dry-run`, something to do) but returns early: `--output json` -/
-def replaceEarlyReturn (r : Row) : Bool :=
-  r.cmd == .replace && r.yes && !r.dryRun && !r.planEmpty && r.json
-
-/-- (command, scenario) pairs whose emitted document is not a member of the declared type -/
-def shapeMismatch (cmd : Cmd) (_noMatches _noRenames : Bool) : Bool :=
-  cmd == .history || cmd == .status
+/-- (command) whose emitted document is not a member of the type the VS Code wrapper declares: `history` unless
+    cliService.history unwraps `entries`, `status` unless the wrapper's `Status` is the real StatusResult — both flags are
+    read from the TypeScript sources by translate/bindings.py, false at HEAD, true once c19_vscode_history_status_shapes.diff
+    has landed -/
+def shapeMismatch (cmd : Cmd) : Bool :=
+  (cmd == .history && !Gen.vscodeHistoryUnwrapsEntries) || (cmd == .status && !Gen.vscodeStatusDeclaresPendingPlan)
 
 namespace Part
 
 theorem conforms_bindings_partial :
-    (Cmd.all.all fun c => (docScenarios c).all fun s => shapeMismatch c s.1 s.2 || conformsCmd c s.1 s.2) = true := by
-  decide +kernel
+    (Cmd.all.all fun c => (docScenarios c).all fun s => shapeMismatch c || conformsCmd c s.1 s.2) = true := by decide +kernel
 
-example : (Cmd.all.filter fun c => !(expectedTypes c).isEmpty && !shapeMismatch c false false).length ≥ 6 := by decide +kernel
+example : (Cmd.all.filter fun c => !(expectedTypes c).isEmpty && !shapeMismatch c).length ≥ 6 := by decide +kernel
 
-theorem replace_prints_a_plan :
-    emittedDoc .replace = some (.pretty n!"Plan")
+theorem replace_documents :
+    emittedDoc .replace = some (.jsonOf n!"RenameResult")
+    ∧ check { plainRow .replace with dryRun := true } (fun o => o.stdout == [.pretty n!"Plan"]) = true
+    ∧ check { plainRow .replace with yes := false } (fun o => o.stdout == [.pretty n!"Plan"]) = true
     ∧ conformsGen { replaceEmpty := false, noMatches := false, noRenames := false } (.ref n!"Plan") (.ref n!"Plan") = true := by
   decide +kernel
 
@@ -49,25 +44,36 @@ theorem plan_member_null_only_if_unserialisable :
     ∧ conformsGen { replaceEmpty := false, noMatches := false, noRenames := false }
         (.ref n!"Plan") (.fallible (.ref n!"Plan")) = true := by decide +kernel
 
-theorem C19_witness_history_shape_mismatch :
-    conformsCmd .history false false = false
+theorem history_conforms_iff_wrapper_unwraps_entries :
+    conformsCmd .history false false = Gen.vscodeHistoryUnwrapsEntries
     ∧ (expectedTypes .history).map (·.1) = [n!"vscode.history"]
-    ∧ conformsGen { replaceEmpty := false, noMatches := false, noRenames := false } (.arr (.ref n!"HistoryEntry")) (.arr (.ref n!"HistoryItem")) = false := by
+    ∧ conformsGen { replaceEmpty := false, noMatches := false, noRenames := false }
+        (.arr (.ref n!"HistoryEntry")) (.arr (.ref n!"HistoryItem")) = false
+    ∧ conformsGen { replaceEmpty := false, noMatches := false, noRenames := false }
+        (.obj [(n!"entries", false, .arr (.ref n!"HistoryEntry"))]) (.obj [(n!"entries", .always, .arr (.ref n!"HistoryItem"))]) = false := by
   decide +kernel
 
-theorem C19_witness_status_shape_mismatch :
-    conformsCmd .status false false = false
+theorem status_conforms_iff_wrapper_declares_status_result :
+    conformsCmd .status false false = Gen.vscodeStatusDeclaresPendingPlan
     ∧ (expectedTypes .status).map (·.1) = [n!"vscode.status"]
     ∧ conformsGen { replaceEmpty := false, noMatches := false, noRenames := false } (.ref n!"HistoryEntry") .str = false
-    ∧ conformsGen { replaceEmpty := false, noMatches := false, noRenames := false } (.ref n!"HistoryEntry") .null = false := by decide +kernel
+    ∧ conformsGen { replaceEmpty := false, noMatches := false, noRenames := false } (.ref n!"HistoryEntry") .null = false := by
+  decide +kernel
 
 theorem exit_code_discipline :
     Gen.exitOk = 0 ∧ Gen.exitOkInterrupted.all (· != 0) = true ∧ Gen.okArmStdoutSites = 0
     ∧ errCodes.all (· != 0) = true ∧ Gen.errArmStdoutSites = 0 ∧ Gen.errArmStderrSites ≥ 1
+    ∧ Gen.errArmJsonDoc = true ∧ Gen.clapErrorJsonDoc = true
+    ∧ (match docShape errorDoc with
+       | some (.obj fs) => fs.map (·.1) == [n!"success", n!"error"]
+       | _ => false) = true
     ∧ Gen.preDispatchExits.all (fun e => e.2.1 != n!"0") = true
+    ∧ Gen.preDispatchExits.all (fun e => e.2.1 == n!"130" || e.2.2.2) = true
     ∧ Gen.initHelperStdoutSites.all (fun e => e.2 == 0) = true := by decide +kernel
 
-theorem core_sites_as_modelled : Gen.coreStdoutSites = assumedCoreSites := by decide +kernel
+theorem core_sites_as_modelled :
+    (Gen.coreStdoutSites.all fun s => knownCoreSites.contains s) = true
+    ∧ (Gen.coreStdoutSites.any fun s => s.2.1 == n!"get_user_confirmation") = false := by decide +kernel
 
 end Part
 end C19
